@@ -13,6 +13,7 @@ import (
 	"fmt"
 	"os"
 	"sort"
+	"strings"
 	"sync"
 	"time"
 
@@ -71,6 +72,28 @@ func InternalError(format string, a ...interface{}) {
 	os.Exit(2)
 }
 
+// PanicSite names the innermost frame of a controlled thread's panic stack
+// that belongs to the code under test or to the harness (frames of the
+// runtime and of the shim packages are skipped, so that e.g. "negative
+// WaitGroup counter" is attributed to the repository function that called
+// Done).
+func PanicSite(stack string) string {
+	for _, l := range strings.Split(stack, "\n") {
+		if strings.HasPrefix(l, "\t") || strings.HasPrefix(l, "goroutine ") || l == "" {
+			continue
+		}
+		if strings.HasPrefix(l, "runtime") || strings.HasPrefix(l, "panic(") || strings.Contains(l, "/vshim/") || strings.HasPrefix(l, "sync.") || strings.HasPrefix(l, "sync/atomic.") {
+			continue
+		}
+		fn := l
+		if j := strings.LastIndex(fn, "("); j > 0 {
+			fn = fn[:j]
+		}
+		return strings.TrimPrefix(fn, "github.com/dappledger/AnnChain/")
+	}
+	return "unknown"
+}
+
 var execMu sync.Mutex // one execution at a time per process
 
 var watchdogOnce sync.Once
@@ -117,8 +140,9 @@ type Job struct {
 	Prefix  []int32         `json:"prefix,omitempty"`
 	ExpN    []int32         `json:"exp_n,omitempty"`
 	ExpTid  []int32         `json:"exp_tid,omitempty"`
+	Batch   []Child         `json:"batch,omitempty"` // subtree jobs: several first-level subtrees in one job
 	Bound   int             `json:"bound"`
-	MaxDev  int             `json:"max_dev"` // max number of non-default choices (0 = unlimited)
+	MaxFree int             `json:"max_free"` // max number of non-default choices at points where the running thread could not continue anyway (-1 = unlimited: pure preemption bounding)
 	Horizon int             `json:"horizon"`
 	// Deadline (unix ms; 0 = none): the worker stops exploring when it is
 	// reached and reports Complete=false.
@@ -268,14 +292,16 @@ func (js *jobState) record(x *vsched.Exec, v Verdict) {
 func (js *jobState) children(x *vsched.Exec, from int) []Child {
 	var out []Child
 	c, n, t := choicesOf(x)
-	pre, dev := 0, 0
+	pre, free := 0, 0
 	for i, p := range x.Points {
 		if i >= from && p.N > 1 {
-			cost := pre
+			ok := false
 			if p.CurEnabled {
-				cost++
+				ok = pre+1 <= js.job.Bound
+			} else {
+				ok = js.job.MaxFree < 0 || free+1 <= js.job.MaxFree
 			}
-			if cost <= js.job.Bound && (js.job.MaxDev <= 0 || dev+1 <= js.job.MaxDev) {
+			if ok {
 				for alt := int32(1); alt < p.N; alt++ {
 					ch := Child{Prefix: append(append([]int32(nil), c[:i]...), alt), ExpN: append([]int32(nil), n[:i+1]...), ExpTid: append(append([]int32(nil), t[:i]...), -1)}
 					out = append(out, ch)
@@ -283,9 +309,10 @@ func (js *jobState) children(x *vsched.Exec, from int) []Child {
 			}
 		}
 		if p.Choice != 0 {
-			dev++
 			if p.CurEnabled {
 				pre++
+			} else {
+				free++
 			}
 		}
 	}
@@ -350,7 +377,12 @@ func DoJob(job *Job) *JobResult {
 			}
 		}
 	case "subtree":
-		js.explore(job.Prefix, job.ExpN, job.ExpTid)
+		if len(job.Prefix) > 0 || len(job.Batch) == 0 {
+			js.explore(job.Prefix, job.ExpN, job.ExpTid)
+		}
+		for _, ch := range job.Batch {
+			js.explore(ch.Prefix, ch.ExpN, ch.ExpTid)
+		}
 	default:
 		js.res.Err = "unknown job mode " + job.Mode
 	}
